@@ -432,6 +432,7 @@ def stopping_rule(ctx, rid):
         rr.bad(ctx.finding(rid, f, f.node, "in samples mode the drawn value is not recorded exactly once", construct="samples-append"), "samples append")
     # classify the breaks
     kinds = {}
+    knode = {}
     for b in brks:
         conds = []
         p = getattr(b.ast, "_parent", None)
@@ -442,25 +443,66 @@ def stopping_rule(ctx, rid):
                 else:
                     conds.append(p.test)
             p = getattr(p, "_parent", None)
-        # a test that is a flag variable: read through a single definition, otherwise not a shape to classify
-        conds2 = []
-        for c_ in conds:
+        # a test that is a flag variable: read through a single definition, or through the `if` just before that sets it in
+        # both arms (`if A: flag = True` / `else: flag = B`  ==  A or B: two exits); otherwise not a shape to classify
+        def flag_alternatives(name, holder):
+            """the alternatives (each a list of conjuncts) under which `name` is true, from the if-statement that precedes `holder`"""
+            blk = None
+            par = getattr(holder, "_parent", None)
+            for fld in ("body", "orelse", "finalbody"):
+                b_ = getattr(par, fld, None)
+                if isinstance(b_, list) and holder in b_:
+                    blk = b_
+            if blk is None or blk.index(holder) == 0:
+                return None
+            prev = blk[blk.index(holder) - 1]
+
+            def of(stmts):
+                # -> list of alternatives, or None
+                if len(stmts) == 1 and isinstance(stmts[0], ast.Assign) and norm(stmts[0].targets[0]) == name:
+                    v_ = stmts[0].value
+                    if isinstance(v_, ast.Constant) and v_.value is True:
+                        return [[]]
+                    if isinstance(v_, ast.Constant) and v_.value in (False, None):
+                        return []
+                    return [list(v_.values) if isinstance(v_, ast.BoolOp) and isinstance(v_.op, ast.And) else [v_]]
+                if len(stmts) == 1 and isinstance(stmts[0], ast.If):
+                    i_ = stmts[0]
+                    a_, b2_ = of(i_.body), of(i_.orelse)
+                    if a_ is None or b2_ is None:
+                        return None
+                    tc = list(i_.test.values) if isinstance(i_.test, ast.BoolOp) and isinstance(i_.test.op, ast.And) else [i_.test]
+                    if b2_ and any(True for _ in b2_):
+                        # the else arm holds under `not test`: only usable when the true arm is unconditional (A or B)
+                        if a_ != [[]]:
+                            return None
+                    return [tc + alt for alt in a_] + b2_
+                return None
+            return of([prev])
+        alts = [conds]
+        for c_ in list(conds):
             inner_ = c_.operand if isinstance(c_, ast.UnaryOp) and isinstance(c_.op, ast.Not) else c_
             if isinstance(inner_, ast.Name) and inner_.id not in f.params:
                 d_ = single_def(f, inner_.id, g)
-                if d_ is None or d_[1] is None or inner_ is not c_:
-                    raise AnalysisError("idiom changed: an exit of the sampling loop is decided through the flag variable `%s`" % inner_.id)
-                v_ = d_[1]
-                conds2.extend(v_.values if isinstance(v_, ast.BoolOp) and isinstance(v_.op, ast.And) else [v_])
-            else:
-                conds2.append(c_)
-        conds = conds2
-        kinds[b.id] = conds
+                rest_ = [x for x in conds if x is not c_]
+                if inner_ is c_ and d_ is not None and d_[1] is not None:
+                    v_ = d_[1]
+                    alts = [rest_ + (list(v_.values) if isinstance(v_, ast.BoolOp) and isinstance(v_.op, ast.And) else [v_])]
+                else:
+                    holder = getattr(b.ast, "_parent", None)
+                    fa_ = flag_alternatives(inner_.id, holder) if inner_ is c_ and isinstance(holder, ast.If) and holder.test is c_ else None
+                    if not fa_:
+                        raise AnalysisError("idiom changed: an exit of the sampling loop is decided through the flag variable `%s`" % inner_.id)
+                    alts = [rest_ + alt for alt in fa_]
+                break
+        for k_, alt in enumerate(alts):
+            kinds[(b.id, k_)] = alt
+            knode[(b.id, k_)] = b
     conv = [b for b, cs in kinds.items() if any("converged" in norm(c) for c in cs)]
     lim = [b for b, cs in kinds.items() if any("max_samples" in norm(c) for c in cs) and b not in conv]
     other = [b for b in kinds if b not in conv and b not in lim]
     if other:
-        rr.bad(ctx.finding(rid, f, g.nodes[other[0]].ast, "the sampling loop has an exit that is neither the convergence test nor the sample limit", construct="extra-break"), "exits classified")
+        rr.bad(ctx.finding(rid, f, knode[other[0]].ast, "the sampling loop has an exit that is neither the convergence test nor the sample limit", construct="extra-break"), "exits classified")
     if len(conv) == 1:
         cs = kinds[conv[0]]
         cc = [c for c in cs if "converged" in norm(c)][0]
@@ -468,7 +510,14 @@ def stopping_rule(ctx, rid):
         call = [x for x in ast.walk(cc) if isinstance(x, ast.Call) and norm(x.func) == RS + ".converged"][0]
         cm = prog.need_cls(U + ".RunningStatistics").methods.get("converged")
         params = cm.positional[1:]
-        a = [norm(x) for x in call.args]
+        def _through(x_, hops=0):
+            # a local that was given the value once (a temporary of a helper that was read through) stands for that value
+            if isinstance(x_, ast.Name) and x_.id not in f.params and hops < 4:
+                d_ = single_def(f, x_.id, g)
+                if d_ is not None and d_[1] is not None:
+                    return _through(d_[1], hops + 1)
+            return x_
+        a = [norm(_through(x)) for x in call.args]
         if params == ["rtol", "atol"] and a == ["rtol", "tol_scale * rtol"] and not call.keywords:
             rr.ok("convergence break: rs.converged(rtol, tol_scale * rtol) matches converged(rtol, atol)")
         else:
